@@ -131,7 +131,9 @@ pub fn threads(args: &Args) -> usize {
 }
 
 pub fn hang_after(args: &Args) -> Duration {
-    Duration::from_secs(args.num("hang-s", 10))
+    // CPU seconds of the worker thread on one case (see pool.rs); the largest repository file (814 KB) takes ~10 s
+    // to format at two widths, so the default leaves an order of magnitude of head room
+    Duration::from_secs(args.num("hang-s", 120))
 }
 
 fn main() {
